@@ -13,7 +13,7 @@ theorem C07_nothing_unverified (file : Nat) (loc : BlockHandle) (w w' : World) (
     ∃ buf, verifyBlock buf loc.size = .ok d
       ∧ crc32c (buf.take loc.size ++ [UInt8.ofNat (buf.getD loc.size 0).toNat])
           = unmaskCrc (decodeFixed32 ((buf.drop (loc.size + 1)).take 4)) := by
-  obtain ⟨buf, _, hv, hc⟩ := readBlockContents_ok file loc w w' d h
+  obtain ⟨buf, _, _, _, hv, hc⟩ := readBlockContents_ok file loc w w' d h
   exact ⟨buf, hv, hc⟩
 
 /-- CRC-32C detects every alteration confined to 4 consecutive bytes (any burst of ≤ 32 bits) — proved
